@@ -1995,6 +1995,20 @@ impl Interp {
                     "the {:?} component (serial {}) of the entity at index {} is still alive after that entity's deletion took effect", kind, serial, idx);
             }
         }
+        // C08: a value that is still attached to a live entity has not been destroyed (values are destroyed
+        // by the deletion of their entity, clear or the end of the world - not by anything else)
+        // (evaluated by the C08 check only: for the other properties it could merely add a deferred note)
+        let c08_focus = crate::engine::focus() == "C08";
+        for (slot, kind) in self.kinds.iter().enumerate() {
+            if kind.zst() || !c08_focus {
+                continue;
+            }
+            for (idx, ident) in &self.comps[slot] {
+                let st = with_ledger(|l| l.state_of(ident.0));
+                ensure!("C08", "destroyed-while-attached", matches!(st, Some(St::Live) | Some(St::Plain)),
+                    "the {:?} component (serial {}) of the live entity at index {} has been destroyed ({:?}) although nothing deleted, removed or overwrote it", kind, ident.0, idx, st);
+            }
+        }
         ensure!("C09", "ran-before-maintain", self.log.lock().unwrap().is_empty(),
             "lazy actions ran outside maintain: {:?}", self.log.lock().unwrap());
         return Ok(());
